@@ -2,7 +2,7 @@
 (* Scenario generator for C20 (ii): every allocation order (sequence without repetition) of length 1..MaxLen
    drawn from one colliding family, placed into each namespace kind.  One line "SCEN {...}" per scenario. *)
 EXTENDS Naturals, Sequences, FiniteSets, TLC, Json
-CONSTANTS MaxLen, NsKinds
+CONSTANTS MaxLen, NsKinds, TagLen
 VARIABLES sc, done
 
 Families == [ collide  |-> {"a-b", "a_b", "aB", "a b", "A_B"},
@@ -16,13 +16,26 @@ InjSeqs(S, k) == {q \in [1..k -> S] : \A i, j \in 1..k : i # j => q[i] # q[j]}
 Bound(f, n) == IF f = "suffix" /\ n = "ops" THEN MaxLen + 1 ELSE MaxLen
 Orders(f, n) == UNION {InjSeqs(Families[f], k) : k \in 1..Bound(f, n)}
 
-Init == /\ sc \in UNION {UNION {{[ns |-> n, family |-> f, names |-> q] : q \in Orders(f, n)} : n \in NsKinds}
-                           : f \in DOMAIN Families}
+Plain == UNION {UNION {{[ns |-> n, family |-> f, names |-> q, tags |-> <<>>] : q \in Orders(f, n)} : n \in NsKinds}
+                  : f \in DOMAIN Families}
+
+\* "tagops": an operation is emitted into the client class of EVERY one of its tags, so the namespace is "all operations
+\* emitted into one client class".  Colliding operationIds reach the client of tag T through different tag positions
+\* (first tag, second tag, shared second tag); at least one operation is multi-tagged (all-[T] is the "ops" kind).
+TagShapes(k)  == IF k = 2 THEN {<<"T">>, <<"U", "T">>, <<"T", "U">>, <<"V", "T">>}
+                 ELSE {<<"T">>, <<"U", "T">>, <<"T", "U">>}
+TagFamilies   == {"collide", "keywords"}
+TagAssign(k)  == {tg \in [1..k -> TagShapes(k)] : \E i \in 1..k : Len(tg[i]) > 1}
+TagOps == UNION {UNION {{[ns |-> "tagops", family |-> f, names |-> q, tags |-> SubSeq(tg, 1, k)]
+                            : q \in InjSeqs(Families[f], k), tg \in TagAssign(k)} : k \in 2..TagLen}
+                   : f \in TagFamilies}
+
+Init == /\ sc \in Plain \cup TagOps
         /\ done = FALSE
 Emit == /\ ~done
         /\ done' = TRUE
         /\ UNCHANGED sc
         /\ PrintT("SCEN " \o ToJson([ns |-> sc.ns, family |-> sc.family,
-                                     names |-> SubSeq(sc.names, 1, Len(sc.names))]))
+                                     names |-> SubSeq(sc.names, 1, Len(sc.names)), tags |-> sc.tags]))
 Spec == Init /\ [][Emit]_<<sc, done>>
 =============================================================================
